@@ -44,14 +44,16 @@ Proof. exact next_goal_counts. Qed.
    other node hangs off an earlier node by a motion the extension step vouches for — it only grows, and every call's report is
    real with respect to the tree that call left behind: a chain of vouched motions from a start state, exact => the goal accepts
    the last state, approximate => no state added during that call beats it, no report => that call added nothing.
-   Instantiated by geometric::RRT (motions checkMotion accepted) and control::RRT (motions that replay) *)
+   Instantiated by geometric::RRT and RLRT (motions checkMotion accepted; the node to extend from is the nearest one / a uniformly
+   drawn one) and control::RRT (motions that replay) *)
 Theorem C03_rrt_family_resumed_solves_report_real_paths :
-  forall (St D I E : Type) dist (dlt : D -> D -> bool) (target : I -> St) extend sat gdist (dflt : St) (EdgeOk : St -> E -> St -> Prop),
+  forall (St D I E : Type) (dlt : D -> D -> bool) (select : list (St * option (nat * E)) -> I -> nat) extend sat gdist (dflt : St)
+         (EdgeOk : St -> E -> St -> Prop),
   (forall a b c, dlt a b = true -> dlt b c = true -> dlt a c = true) -> (forall a, dlt a a = false) ->
-  (forall n i s e, extend n i = Some (s, e) -> EdgeOk n e s) ->
+  (forall n i s e, extend n i = Some (s, e) -> EdgeOk n e s) -> (forall tree i, tree <> [] -> (select tree i < length tree)%nat) ->
   forall starts calls tree0 new_starts, TInv St E EdgeOk starts tree0 -> (forall x, In x new_starts -> In x starts) ->
   tree0 ++ map (fun x => (x, None)) new_starts <> [] ->
-  let res := tree_calls St D I E dist dlt target extend sat gdist dflt tree0 new_starts calls in
+  let res := tree_calls St D I E dlt select extend sat gdist dflt tree0 new_starts calls in
   TInv St E EdgeOk starts (fst res) /\
   Forall (fun rep => exists base tree, report_ok St D E sat gdist dlt dflt EdgeOk starts base tree rep /\ TInv St E EdgeOk starts tree /\
                                        exists ext, fst res = tree ++ ext) (snd res).
